@@ -7,6 +7,8 @@ def H(harness, bound, covers=(), timeout=900, cost=1, crate="core", **kw):
     gb = 2 if cost <= 2 else (4 if cost <= 4 else (7 if cost <= 6 else 10))
     d = dict(harness=harness, bound=bound, covers=list(covers), timeout=timeout, cost=cost, crate=crate, gb=gb)
     d.update(kw)
+    if d.get("mem_gb"):
+        d["gb"] = max(d["gb"], int(d["mem_gb"] * 0.75))
     return d
 
 ALL256 = "all 256 byte values"
@@ -91,7 +93,6 @@ C16_T = [
     H("d16_tag_n3", DIFF + "start/empty tag <=3 bytes; expand_empty_elements symbolic (both runs real, no reference)", ["empty element expanded"], cost=9, timeout_thorough=3600),
     H("d16_end_n3", DIFF + "end tag <=3 bytes; trim_markup_names_in_closing_tags symbolic", ["end name actually trimmed"], cost=9, timeout_thorough=3600),
     H("d16_comment_n3", DIFF + "'!--'+<=3 bytes; check_comments symbolic", ["double hyphen reported"], cost=9, timeout_thorough=3600),
-    H("d16_text_n3", DIFF + "InsideText <=3 bytes; trim switches symbolic (3 real runs)", ["text actually trimmed"], cost=9, timeout_thorough=3600),
 ]
 BUF = "one Reader<BufRead>::read_event_into() over a source delivering the rest in 2 pieces (cut symbolic) vs the reference step (== slice reader by the C01 obligations), same state; "
 C02_Q = [
@@ -115,17 +116,11 @@ C02_T = [
     H("k_pi_split_n12", "PiParser::feed split at every cut, <=12 bytes", []),
     H("k_bang_split_n12", "BangType::parse split at every cut, <=12 bytes", [], cost=9, timeout_thorough=5400),
     H("h2_text_n5", "one XmlSource helper (read_text) on a BufRead delivering <=5 symbolic bytes in 2 pieces (cut symbolic) vs the same helper of the slice source on the same bytes (hooks verif_source)", [], cost=9, timeout_thorough=3600, mem_gb=24),
-    H("h2_text_n8k2", "one XmlSource helper (read_text) on a BufRead delivering <=8 symbolic bytes in 3 pieces (cut symbolic) vs the same helper of the slice source on the same bytes (hooks verif_source)", [], cost=9, timeout_thorough=5400, mem_gb=24),
     H("h2_elem_n5", "one XmlSource helper (read_with(ElementParser)) on a BufRead delivering <=5 symbolic bytes in 2 pieces (cut symbolic) vs the same helper of the slice source on the same bytes (hooks verif_source)", [], cost=9, timeout_thorough=3600, mem_gb=24),
-    H("h2_elem_n8k2", "one XmlSource helper (read_with(ElementParser)) on a BufRead delivering <=8 symbolic bytes in 3 pieces (cut symbolic) vs the same helper of the slice source on the same bytes (hooks verif_source)", [], cost=9, timeout_thorough=5400, mem_gb=24),
     H("h2_pi_n5", "one XmlSource helper (read_with(PiParser)) on a BufRead delivering <=5 symbolic bytes in 2 pieces (cut symbolic) vs the same helper of the slice source on the same bytes (hooks verif_source)", [], cost=9, timeout_thorough=3600, mem_gb=24),
-    H("h2_pi_n8k2", "one XmlSource helper (read_with(PiParser)) on a BufRead delivering <=8 symbolic bytes in 3 pieces (cut symbolic) vs the same helper of the slice source on the same bytes (hooks verif_source)", [], cost=9, timeout_thorough=5400, mem_gb=24),
     H("h2_skipws_n5", "one XmlSource helper (skip_whitespace) on a BufRead delivering <=5 symbolic bytes in 2 pieces (cut symbolic) vs the same helper of the slice source on the same bytes (hooks verif_source)", [], cost=9, timeout_thorough=3600, mem_gb=24),
-    H("h2_skipws_n8k2", "one XmlSource helper (skip_whitespace) on a BufRead delivering <=8 symbolic bytes in 3 pieces (cut symbolic) vs the same helper of the slice source on the same bytes (hooks verif_source)", [], cost=9, timeout_thorough=5400, mem_gb=24),
     H("h2_peek_n5", "one XmlSource helper (peek_one) on a BufRead delivering <=5 symbolic bytes in 2 pieces (cut symbolic) vs the same helper of the slice source on the same bytes (hooks verif_source)", [], cost=9, timeout_thorough=3600, mem_gb=24),
-    H("h2_peek_n8k2", "one XmlSource helper (peek_one) on a BufRead delivering <=8 symbolic bytes in 3 pieces (cut symbolic) vs the same helper of the slice source on the same bytes (hooks verif_source)", [], cost=9, timeout_thorough=5400, mem_gb=24),
     H("h2_bom_n5", "one XmlSource helper (remove_utf8_bom) on a BufRead delivering <=5 symbolic bytes in 2 pieces (cut symbolic) vs the same helper of the slice source on the same bytes (hooks verif_source)", [], cost=9, timeout_thorough=3600, mem_gb=24),
-    H("h2_bom_n8k2", "one XmlSource helper (remove_utf8_bom) on a BufRead delivering <=8 symbolic bytes in 3 pieces (cut symbolic) vs the same helper of the slice source on the same bytes (hooks verif_source)", [], cost=9, timeout_thorough=5400, mem_gb=24),
 ]
 FLT = "buffered step over a source with a solver-chosen fault (none / Interrupted / one of 6 other error kinds incl. UnexpectedEof, WouldBlock) at each of its first 3 refills, 2 pieces; "
 C18_Q = [
@@ -140,9 +135,6 @@ C18_T = [
     H("h18_text_n3", "one XmlSource helper (read_text) on a BufRead delivering <=3 symbolic bytes in 2 pieces, with a solver-chosen fault (none / Interrupted / one of 6 other error kinds) at each of its first 3 refills, vs the slice helper", ["io error delivered"], cost=6),
     H("h18_pi_n3", "one XmlSource helper (read_with(PiParser)) on a BufRead delivering <=3 symbolic bytes in 2 pieces, with a solver-chosen fault (none / Interrupted / one of 6 other error kinds) at each of its first 3 refills, vs the slice helper", ["io error delivered"], cost=9, mem_gb=28, gb=22, timeout_thorough=3600),
     H("h18_elem_n3", "one XmlSource helper (read_with(ElementParser)) on a BufRead delivering <=3 symbolic bytes in 2 pieces, with a solver-chosen fault (none / Interrupted / one of 6 other error kinds) at each of its first 3 refills, vs the slice helper", ["io error delivered"], cost=9, mem_gb=28, gb=22, timeout_thorough=3600),
-    H("h18_text_n4", "same, <=4 bytes", ["io error delivered"], cost=9, timeout_thorough=3600, mem_gb=24),
-    H("h18_elem_n4", "same, <=4 bytes", ["io error delivered"], cost=9, timeout_thorough=3600, mem_gb=24),
-    H("h18_pi_n4", "same, <=4 bytes", ["io error delivered"], cost=9, timeout_thorough=3600, mem_gb=24),
     H("h18_skipws_n4", "same, <=4 bytes", ["io error delivered"], cost=9, timeout_thorough=3600, mem_gb=24),
     H("h18_peek_n4", "same, <=4 bytes", ["io error delivered"], cost=9, timeout_thorough=3600, mem_gb=24),
     H("h18_bom_n4", "same, <=4 bytes", ["io error delivered"], cost=9, timeout_thorough=3600, mem_gb=24),
@@ -168,13 +160,6 @@ C10_T = [
     H("x10_unesc_n1", "unescape on '&#?;' with 1 symbolic ASCII byte", ["reference expanded", "malformed reference"], cost=9, timeout_thorough=3600, mem_gb=30),
     H("x10_unesc_s1b", "unescape on '&l?;' with 1 symbolic ASCII byte", ["reference expanded", "malformed reference"], cost=9, timeout_thorough=3600, mem_gb=30),
     H("x10_unesc_s1a", "unescape on '&?t;' with 1 symbolic ASCII byte (lt, gt, unknown names, nested & and ;)", ["reference expanded", "malformed reference"], cost=9, timeout_thorough=3600, mem_gb=30),
-    H("x10_unescape_n4", "unescape on every ASCII string of <=4 bytes", ["reference expanded"], cost=9, timeout_thorough=3600),
-    H("x10_unesc_s2", "unescape on '&??;' with 2 symbolic ASCII bytes", ["reference expanded"], cost=9, timeout_thorough=3600, mem_gb=30),
-    H("x10_unesc_num", "unescape on '&#??;' with 2 symbolic ASCII bytes", ["reference expanded"], cost=9, timeout_thorough=3600, mem_gb=30),
-    H("x10_unesc_s3", "unescape on '&???;' (amp and look-alikes)", ["reference expanded"], cost=9, timeout_thorough=3600, mem_gb=30),
-    H("x10_unesc_s4", "unescape on '&????;' (apos, quot and look-alikes)", ["reference expanded"], cost=8),
-    H("x10_unesc_hex", "unescape on '&#x??;'", ["reference expanded"], cost=7),
-    H("x10_unesc_two", "unescape on '?&lt;?&' (text around a reference, unterminated second one)", [], cost=7),
     H("x10_esc_full_mid", "escape on '<' c '>' with c symbolic (pos/new_pos bookkeeping between replacements)", ["something escaped"], cost=8),
     H("x10_esc_full_end", "escape on 'a&' c with c symbolic", ["something escaped"], cost=8),
     H("x10_esc_min_mid", "minimal_escape on '>' c '<' with c symbolic", ["something escaped"], cost=8),
@@ -266,8 +251,6 @@ C13_Q = [
 ]
 C13_T = [
     H("c13_name_n4", "XmlName::try_from on every UTF-8 string of <=4 bytes", ["long name accepted"], crate="serde", cost=5),
-    H("c13_ty0_attr", "whole serializer: struct{@a: 1 symbolic byte, $text: hostile literal}, symbolic quote level/indent/expand; output scanned for well-formedness", ["serialized"], crate="serde", cost=9, timeout_thorough=5400, mem_gb=30),
-    H("c13_ty5_root", "whole serializer: root name = 1 symbolic byte", ["serialized", "rejected"], crate="serde", cost=9, timeout_thorough=5400, mem_gb=30),
 ]
 C17_Q = [
     H("c17_detect", "encoding::detect_encoding on every input of <=4 bytes vs the documented table", ["utf-8 bom", "utf-16le signature"], crate="enc"),
@@ -316,6 +299,8 @@ PLAN = {
 _TH = []
 for _k, _v in list(PLAN["properties"].items()):
     for _h in _v.get("thorough", []):
-        _TH.append(dict(_h, timeout=_h.get("timeout_thorough", 2700), covers=[]))
+        _TH.append(dict(_h, timeout=min(_h.get("timeout_thorough", 2700), 1800), covers=[]))
+_seen = set()
+_TH = [h for h in _TH if not (h["harness"] in _seen or _seen.add(h["harness"]))]
 PLAN["properties"]["_TH"] = {"quick": _TH, "thorough": [], "owns_panics": True,
                              "labels": ["C%02d" % i for i in range(1, 21)], "evidence": {}}
